@@ -365,6 +365,29 @@ def run(chk):
            'printed script names, so the grounded table is written / read elsewhere'
            % piece, fi=f.fi)
 
+  # "the table of P holds exactly the multiset P evaluates to": the query that
+  # fills the table is the query that is printed when P is asked for - the
+  # compilation of a predicate does not ask whether it is the requested one
+  psv = FnView(repo, PREDSQL)
+  asks = [x for x in walk_local(psv.fi.node) if isinstance(x, ast.Attribute) and
+          x.attr == 'main_predicate' and isinstance(x.ctx, ast.Load)]
+  for n_, c_ in psv.all_calls():
+    for t_ in repo.resolve(psv.fi, c_):
+      if t_.startswith('universe.LogicaProgram.') and t_ not in (PREDSQL,
+                                                                 'universe.LogicaProgram.SingleRuleSql'):
+        try:
+          h_ = repo.func(t_)
+        except AnalysisError:
+          continue
+        asks += [x for x in walk_local(h_.node) if isinstance(x, ast.Attribute) and
+                 x.attr == 'main_predicate' and isinstance(x.ctx, ast.Load)]
+  chk.ob('C17-R3', not asks, None,
+         'PredicateSql compiles a predicate the same way whether it is requested or materialised',
+         'PredicateSql consults execution.main_predicate: the statement that fills the table of '
+         'a grounded predicate differs from the query printed for the predicate itself '
+         '(e.g. LIMIT without ORDER BY keeps other rows)', fi=psv.fi,
+         node=asks[0] if asks else None)
+
   chk.rule('C17-R4', 'a grounded predicate is never inlined into its reader: '
            'OkInjection is false whenever Ground(p) is present and every '
            'InjectStructure is control dependent on OkInjection for the '
